@@ -333,6 +333,9 @@ def group_case(sh, rng, shape=None, axis='random', reduction='random'):
         refit = np.array(rows2).reshape(shape2 + (nsamp,))
     case = {'group': True, 'sigs': sigs, 'fs': fs, 'f_range': (lo, hi), 'settings': settings, 'axis': axis, 'refit': refit,
             'reduction': [None, 0.0, 0.1, 0.2][int(rng.integers(0, 4))] if reduction == 'random' else reduction}
+    if rng.random() < 0.5:
+        case['edit_before_recompute'] = [['monotonicity_threshold', 0.3], ['amp_consistency_threshold', 0.2], ['min_n_cycles', 2],
+                                         ['period_consistency_threshold', 0.25]][int(rng.integers(0, 4))]
     if shape is not None and len(shape) == 2 and shape[0] != shape[1] and case['reduction'] is not None:
         sh.note('group_3d_unequal_extents_with_recompute_edges')
     run_group(sh, case)
@@ -378,6 +381,12 @@ def run_group(sh, case, driver='group'):
             for i in ix:
                 m = m[i]
             before[ix] = m.df_features.copy(deep=True)
+        if case.get('edit_before_recompute'):
+            # the group's thresholds are edited in place after the fit: the recomputation uses the CURRENT thresholds lowered by r
+            key, val = case['edit_before_recompute']
+            bg.thresholds[key] = val
+            sh_.thresholds[key] = val
+            sh.note('group_thresholds_edited_before_recompute')
         _, eo = outcome(lambda: bg.recompute_edges(r))
         attach.count('eval:group_recompute_compared')
         sh.note('group_recompute:%s' % (list(sigs.shape[:-1]),))
@@ -405,6 +414,8 @@ def run_group(sh, case, driver='group'):
         axis2 = 0
         _, e2 = outcome(lambda: bg.fit(np.array(sigs2, copy=True), case['fs'], tuple(case['f_range']), axis=axis2, n_jobs=1))
         fresh = BycycleGroup(**copy.deepcopy(case['settings']))
+        if case.get('edit_before_recompute') and case.get('reduction') is not None and Shadow(case['settings']).method == 'cycles':
+            fresh.thresholds[case['edit_before_recompute'][0]] = case['edit_before_recompute'][1]      # the same current settings
         _, e3 = outcome(lambda: fresh.fit(np.array(sigs2, copy=True), case['fs'], tuple(case['f_range']), axis=axis2, n_jobs=1))
         attach.count('eval:group_refit_compared')
         sh.note('group_refit:%s->%s' % (list(sigs.shape[:-1]), list(sigs2.shape[:-1])))
